@@ -4,8 +4,10 @@ from facts import walk, callee, children
 from tree import strip, root_local, place_path, cname, iname, lit_bool, pat_bindings
 from core import Broken
 
-CONSUMING = {'insert', 'push', 'append', 'extend', 'or_insert', 'or_insert_with', 'insert_unique_unchecked', 'push_back',
-             'extend_from_slice', 'insert_hashed_nocheck', 'insert_with_hasher'}
+CONSUMING = {'insert', 'push', 'append', 'extend', 'or_insert', 'or_insert_with', 'push_back', 'extend_from_slice'}
+# insertions that assume the key is absent: in a merge the two sides may share keys (a lattice key improved in place is
+# re-inserted into `new` while present in `total`), so these create duplicate buckets
+UNCHECKED_INSERTS = {'insert_unique_unchecked', 'insert_hashed_nocheck', 'insert_with_hasher', 'insert_unique'}
 
 
 def chain_root(n):
@@ -240,6 +242,13 @@ def check_L4(ctx, rep):
             if not ok:
                 rep.viol('L4', where, 'drained-entry-dropped',
                          'a path through the merge loop drops a drained (key, value) instead of inserting it into `to`', loc=cr.loc(x))
+        # O2b: no key-uniqueness assumption when inserting into `to`
+        for x, parents in walk(b['tree']):
+            if x.get('k') == 'mcall' and x['m'] in UNCHECKED_INSERTS:
+                r = chain_root(x['r'])
+                if r is not None and roles.get(r['id']) == 'TO':
+                    rep.viol('L4', where, 'unchecked-insert:' + x['m'],
+                             '`%s` inserts without looking the key up: keys present on both sides of a merge end up twice in `to`' % x['m'], loc=cr.loc(x))
         # O3: swaps exchange from/to themselves (or drained value with the destination slot), never one side with a fresh value
         for x, parents in walk(b['tree']):
             c = callee(x)
